@@ -88,6 +88,7 @@ def copyval(v):
 
 # string literals: one array constant per distinct literal, with ground facts
 _strlits = {}
+STRLIT_BY_NAME = {}
 STRLIT_FACTS = []
 def strlit(b):
     b = bytes(b)
@@ -95,6 +96,7 @@ def strlit(b):
         return _strlits[b]
     arr = z3.Const('strlit!%d' % len(_strlits), ArrII)
     v = StrV(arr, z3.IntVal(0), z3.IntVal(len(b)), lit=b)
+    STRLIT_BY_NAME['strlit!%d' % len(_strlits)] = v
     _strlits[b] = v
     return v
 
